@@ -27,4 +27,6 @@ struct obj *getobj(const char *ids, int kind);
 struct obj *newobj(const char *ids, int kind);
 int ops_table(char **args, int na);
 int ops_codec(char **args, int na);
+int ops_merger(char **args, int na);
+void destroy_merger(struct obj *o);
 #endif
